@@ -400,15 +400,26 @@ fn check_inner(case: &Case) -> Verdict {
         return Verdict::Reject("rg rejected the arguments");
     }
     let lines = model::split_lines(input, b'\n');
+    // Known finding multi-line-per-match-output-omits-empty-matches (see check_multi): under --vimgrep -U a
+    // match that is empty or made of line terminators only gets no record, although the sink counted it
+    // (its context lines and separators are printed all the same).
+    let empty_ml_match = case.mode == Mode::Vimgrep
+        && case.multiline
+        && super::c13::enumerate_matches(&matcher, input, false).iter().any(|(s, e)| input[*s..*e].iter().all(|b| *b == b'\n' || *b == b'\r'));
     let fail = |msg: String| {
-        Fail::new(format!(
+        let f = Fail::new(format!(
             "{msg}\n cmd: {cmd}\n input ({} bytes): {:?}\n stdout ({} bytes): {:?}\n stderr: {:?}",
             input.len(),
             Bs(input[..input.len().min(600)].to_vec()),
             out.stdout.len(),
             Bs(out.stdout[..out.stdout.len().min(1200)].to_vec()),
             Bs(out.stderr.clone())
-        ))
+        ));
+        if empty_ml_match {
+            f.fact("multi-line-per-match-output-has-no-record-for-an-empty-or-terminator-only-match")
+        } else {
+            f
+        }
     };
     // whole-input matches (for -U) by the real matcher
     let ml_matches = if case.multiline { super::c13::enumerate_matches(&matcher, input, false) } else { vec![] };
@@ -884,6 +895,25 @@ fn strip_json_noise(stdout: &[u8]) -> Result<Vec<Value>, String> {
 }
 
 pub fn check_multi(mc: &MultiCase) -> Verdict {
+    let v = check_multi_inner(mc);
+    if let Verdict::Fail(_) = &v {
+        // as in `check`: a failure on an input where the regex engine contradicts itself across start
+        // offsets carries the fact of that (known) root cause; either file may be the one
+        let pc = pat_cfg(&mc.base);
+        if let (Ok(m), Ok(o)) = (pc.build(), oracle::build(&pc)) {
+            let first = crate::mat::attribute_engine(v, &m, Some(&o.re), &mc.base.input.0, b'\n', mc.base.crlf);
+            return match first {
+                Verdict::Fail(f) if !f.facts.iter().any(|x| x == crate::mat::ENGINE_FACT) => {
+                    crate::mat::attribute_engine(Verdict::Fail(f), &m, Some(&o.re), &mc.second.0, b'\n', mc.base.crlf)
+                }
+                other => other,
+            };
+        }
+    }
+    v
+}
+
+fn check_multi_inner(mc: &MultiCase) -> Verdict {
     let case = &mc.base;
     if gen::starts_with_bom(&case.input.0) || gen::starts_with_bom(&mc.second.0) {
         return Verdict::Reject("input starts with a byte-order mark (transcoding is C17's subject)");
